@@ -25,6 +25,8 @@ structure World where
   cur : String := "main"
   out : List Json := []
   desync : Option Json := none
+  /-- files that were stashed while their INITIAL claims were still pending (reported, not used) -/
+  pendingStash : List String := []
 
 def World.get (w : World) (p : String) : RState :=
   match w.files.find? (·.1 = p) with
@@ -122,10 +124,14 @@ def stepW (w : World) (j : Json) : Except String World := do
   | "resetHard" => pure (w.all (.resetHard (← getNatField j "n")))
   | "checkoutForceSame" => pure (w.all .checkoutForceSame)
   | "reset" => pure (w.all (.r (.reset (← getNatField j "n") (← getBoolField j "soft"))))
-  | "stashPush" => pure (w.all (.r .stashPush))
+  | "stashPush" =>
+    let pend := (w.files.filter (fun x => !x.2.st.initial.isEmpty)).map (·.1)
+    pure { (w.all (.r .stashPush)) with pendingStash := w.pendingStash ++ pend }
   | "stashPushPaths" =>
     let ps ← strsOf (← j.getObjVal? "paths")
-    pure (w.mapFiles (fun p r => if p ∈ ps then dstep r (.r .stashPush) else dstep r .stashPushOther))
+    let pend := (w.files.filter (fun x => x.1 ∈ ps && !x.2.st.initial.isEmpty)).map (·.1)
+    pure { (w.mapFiles (fun p r => if p ∈ ps then dstep r (.r .stashPush) else dstep r .stashPushOther)) with
+           pendingStash := w.pendingStash ++ pend }
   | "stashPop" | "stashApply" =>
     let ys ← j.getObjVal? "ys"
     let note := topHasNote w
@@ -176,7 +182,8 @@ def handle (op : String) (j : Json) : Option (Except String Json) :=
       let mut w : World := { files := files }
       for s in script.toList do
         w ← stepW w s
-      pure (jObj [("obs", jArr w.out), ("desync", w.desync.getD Json.null)])
+      pure (jObj [("obs", jArr w.out), ("desync", w.desync.getD Json.null),
+                  ("pendingStash", jArr (w.pendingStash.map Json.str))])
   | _ => none
 
 end GitAi.Driver.DiscardD
